@@ -154,17 +154,29 @@ def _resolve_at(expr, stmt, fnode, depth=6):
                 stmt = st
                 break
 
+    class _Elem:
+        """one component of `a, b = x, y`: the definition of a (or b), positioned at that statement"""
+
+        def __init__(self, st, value):
+            self.st, self.value = st, value
+
     def reaching(name, at):
+        at = at.st if isinstance(at, _Elem) else at
         for block, i in chains.get(id(at), []):
             for st in reversed(block[:i]):
                 if isinstance(st, ast.Assign) and len(st.targets) == 1 and is_name(st.targets[0], name):
                     return st
+                if isinstance(st, ast.Assign) and len(st.targets) == 1 and isinstance(st.targets[0], (ast.Tuple, ast.List)) and isinstance(st.value, (ast.Tuple, ast.List)) and len(st.targets[0].elts) == len(st.value.elts) and not any(isinstance(x, ast.Starred) for x in st.value.elts):
+                    for t_, v_ in zip(st.targets[0].elts, st.value.elts):
+                        if is_name(t_, name):
+                            return _Elem(st, v_)
                 if any(isinstance(x, ast.Name) and x.id == name and isinstance(x.ctx, ast.Store) for x in ast.walk(st)):
                     return None  # defined in a compound / tuple statement: keep the name
         return None
 
     def reaching_sub(sub_src, base, at):
         """nearest earlier `base[...] = value` with exactly this subscript text (no other write to base in between)"""
+        at = at.st if isinstance(at, _Elem) else at
         for block, i in chains.get(id(at), []):
             for st in reversed(block[:i]):
                 if isinstance(st, ast.Assign) and len(st.targets) == 1 and isinstance(st.targets[0], ast.Subscript) and ast.unparse(st.targets[0]) == sub_src:
